@@ -202,8 +202,8 @@ PROPS["C16"] = dict(
 )
 PROPS["C13"] = dict(
     title="primary keys identify items faithfully and are enforced",
-    quick=[G("M_KEYS", cfg="M_KEYS_S")],
-    thorough=[G("M_KEYS", cfg="M_KEYS_S_t"), G("M_KEYS", cfg="M_KEYS_B")],
+    quick=[G("M_KEYS", cfg="M_KEYS_S"), T("M_NUMKEY")],
+    thorough=[G("M_KEYS", cfg="M_KEYS_S_t"), G("M_KEYS", cfg="M_KEYS_B"), T("M_NUMKEY")],
     own=[parts("Outcome", "ErrClass", "Data", "Base", "Desc", "NoCrash")],
     design_ref="DESIGN.md 6 C13",
     level_text="Hash+range keys (string and binary) over byte alphabets built to collide under separator-joined encodings, stored at most 2 "
